@@ -466,6 +466,9 @@ var c04Hands = []c04Hand{
 	{"c04:plural-float", "{namespace h}\n/** @param n */\n{template .t}{msg desc=\"\"}{plural $n}{case 1}one{default}{$n} many{/plural}{/msg}{/template}\n", `{"n":1}`},
 	{"c04:ok:call-data", "{namespace h}\n/** @param m\n @param s */\n{template .t}{call .u data=\"$m\"}{param b}<{$s}>{/param}{/call}{call .u data=\"all\"}{param a: 9 /}{param b: $s /}{/call}{/template}\n/** @param a\n @param b */\n{template .u}{$a}:{$b};{/template}\n", `{"m":{"a":1,"b":2},"s":"x&y","a":5}`},
 	{"c04:loopfunc-of-outer-loop", "{namespace h}\n/** @param l */\n{template .t}{foreach $a in $l}{foreach $b in $l}{if isLast($a)}L{/if}{index($a)}{/foreach}|{/foreach}{/template}\n", `{"l":[1,2,3]}`},
+	{"c04:escapeHtml-nul", "{namespace h}\n/** @param s */\n{template .t}[{$s}]{/template}\n", `{"s":"a\u0000b"}`},
+	{"c04:switch-default-first", "{namespace h}\n/** @param x */\n{template .t}{switch $x}{default}D{case 1}one{/switch}{/template}\n", `{"x":1}`},
+	{"c04:loopfunc-of-for-range", "{namespace h}\n{template .t}{for $i in range(1, 4)}{index($i)}{if isFirst($i)}F{/if}{if isLast($i)}L{/if} {/for}{/template}\n", `{}`},
 	{"c04:ok:loops", "{namespace h}\n/** @param l */\n{template .t}{foreach $a in $l}{foreach $b in $l}{$a}{$b}{if isFirst($b)}F{/if}{if isLast($b)}L{/if}{index($b)}{ifempty}E{/foreach}{if isLast($a)}L{/if}|{ifempty}none{/foreach}{for $i in range(1, 7, 2)}{$i}{/for}{/template}\n", `{"l":[1,2,3]}`},
 }
 
